@@ -25,6 +25,10 @@ Theorem C08_upwind_block : forall (F : FieldOps) (L : FieldLaws F) (m : Mesh F) 
   apply_axis F (upwAW F m u uup) (upwAP F m u uup) (upwAE F m u uup) x a c = kmul F (x c) (divrow F m u a c).
 Proof. exact upwind_block_on_invariant_field. Qed.
 Print Assumptions C08_upwind_block.
+Theorem C08_tvd_block_vanishes : forall (F : FieldOps) (L : FieldLaws F) (fsgn FLm : F -> F) (m : Mesh F) (u uup : fvar F) (x : cvar F) a c,
+  constant_along F x a c -> 1 <= cidx a c -> tvdrow F fsgn FLm m u uup x a c = k0 F.
+Proof. exact tvd_block_vanishes. Qed.
+Print Assumptions C08_tvd_block_vanishes.
 Theorem C08_invariant_velocity : forall (F : FieldOps) (L : FieldLaws F) (m : Mesh F) (u : fvar F) a c,
   kmul F (mA F m a (cidx a c)) (u a c) = kmul F (mA F m a (pred (cidx a c))) (u a (cdn a c)) -> divrow F m u a c = k0 F.
 Proof. exact divrow_of_invariant_velocity. Qed.
